@@ -102,7 +102,11 @@ class CronWorld(object):
             occ = world._vt(t.next_execution_time)
             if g is not None:
                 g.park('adv', tt)
-            r = orig_adv(t)
+            world.in_adv[p] = True
+            try:
+                r = orig_adv(t)
+            finally:
+                world.in_adv[p] = False
             world.cur[p] = dict(t=tt, occ=occ, won=bool(r))
             if g is not None and not r:
                 g.park('start', tt)
@@ -129,6 +133,40 @@ class CronWorld(object):
                                          proj=(ctx.project_id if ctx is not None else 'none'), inputOk=bool(ok)))
                 return {}
 
+        # statement-level interference (another processor's COMMITTED advance lands between this processor's SELECT of the
+        # trigger row and its conditional UPDATE / DELETE - possible under READ COMMITTED, not executable with two real
+        # transactions in this sandbox): armed per processor, fires once inside the next advance_cron_trigger
+        from mistral.db.v2.sqlalchemy import api as sa_api
+        from mistral.db.sqlalchemy import base as sa_base
+        self._sa_api = sa_api
+        self._orig_get = sa_api.get_cron_trigger
+        self.armed = set()
+        self.in_adv = {}
+        self.interfered = []
+
+        def get_ct(identifier, *a, **k):
+            row = world._orig_get(identifier, *a, **k)
+            p = getattr(_TL, 'proc', None)
+            if p in world.armed and world.in_adv.get(p):
+                world.armed.discard(p)
+                tt = world.names.get((row.project_id, row.name))
+                occ = world._vt(row.next_execution_time)
+                import sqlalchemy as sa
+                ses = sa_base._get_thread_local_session()
+                rem = row.remaining_executions
+                if rem is not None and rem - 1 == 0:
+                    ses.execute(sa.text('delete from cron_triggers_v2 where id = :i'), {'i': row.id})
+                else:
+                    period = world.cfg[tt]['period'] or 1
+                    nxt = BASE + datetime.timedelta(minutes=((max(world.now, occ) // period) + 1) * period)
+                    ses.execute(sa.text('update cron_triggers_v2 set next_execution_time = :n, remaining_executions = :r where id = :i'),
+                                {'n': nxt.strftime('%Y-%m-%d %H:%M:%S.000000'), 'r': (rem - 1 if rem is not None else None), 'i': row.id})
+                # the other processor also started the workflow for the occurrence it consumed
+                world.starts.append(dict(t=tt, occ=occ, at=world.now, proj=world.cfg[tt]['project'], inputOk=True))
+                world.interfered.append((p, tt, occ))
+            return row
+
+        sa_api.get_cron_trigger = get_ct
         periodic.advance_cron_trigger = adv
         triggers.get_next_cron_triggers = lst
         periodic.rpc.get_engine_client = lambda: Client()
@@ -212,6 +250,7 @@ class CronWorld(object):
         (self.keystone.client, self.keystone.client_for_admin, self.keystone.client_for_trusts,
          self.periodic.advance_cron_trigger, self.triggers.get_next_cron_triggers,
          self.periodic.rpc.get_engine_client) = self._saved
+        self._sa_api.get_cron_trigger = self._orig_get
         self.timeutils.clear_time_override()
         mdb.set_ctx(None)
 
